@@ -1181,7 +1181,7 @@ PROPS["C20"] = {
     "post": c20_post,
     "nontrivial": lambda c, r: "defineComponent(" in c["src"] or "defineComponent (" in c["src"],
     "theorems": ["C20_off_untouched", "C20_other_calls_untouched", "C20_gate_iff", "C20_member_callee_never", "C20_import_other_module",
-                 "C20_explicit_option_kept", "C20_spread_arguments_untouched", "C20_options_expression_spread_last",
+                 "C20_explicit_option_kept", "C20_spread_arguments_untouched", "C20_no_arguments_untouched", "C20_options_expression_spread_last",
                  "insertBeforeFirstSpread_eq", "C20_user_wins_semantic", "visit_inert", "visit_dc_none", "visitKids_dc_none"],
     "cases": c20_cases,
     "explanation": "oracle: every user-written call of the input is aligned with the same call of the real output; a changed call must be a call of the binding imported by name from 'vue' with resolveType on, must not have a spread among its first two arguments, must keep every user-written option entry in order, and every injected props/emits/name entry must sit BEFORE any user entry or spread that can provide the same key (so that what the user wrote is what Vue receives); name only for `const x = defineComponent(...)` with the variable's name",
@@ -1253,10 +1253,9 @@ C09_DC_FIRST = ["{ setup() { return () => JSX; } }", "{ name: 'Own', render() { 
                 "{ props: { a: String }, setup(props) { return () => JSX; } }", "{}", "{ 'name': 'Q', render: () => JSX }", "{ ['name']: nm }",
                 "{ get name() { return 'g'; }, render() { return JSX; } }", "{ name }", "{ setup() { return () => JSX; } } as any", "({ render() { return JSX; } })",
                 "(props: { label: string }) => () => JSX", "function Named(props: { b?: boolean }) { return () => JSX; }",
-                "(props: { a: string } = { a: 'd' }, ctx: SetupContext<{ (e: 'x'): void }>) => () => JSX", "() => () => JSX", "(props) => JSX", "opts", "...args"]
-# NOT in the stream (reported, open): a call WITHOUT arguments. `const X = defineComponent()` becomes `defineComponent({ name: "X" })` on the unchanged tree
-# (the inferred name lands in the FIRST argument, i.e. becomes the component) and a second run gives `defineComponent({ name: "X" }, { name: "X" })`:
-# C09 clauses changed-outside-defineComponent-options and not-idempotent.  Add "" to C09_DC_FIRST once that is decided.
+                "(props: { a: string } = { a: 'd' }, ctx: SetupContext<{ (e: 'x'): void }>) => () => JSX", "() => () => JSX", "(props) => JSX", "opts", "...args", ""]
+# "" = a call WITHOUT arguments: `const X = defineComponent()` became `defineComponent({ name: "X" })` (the inferred name landed in the FIRST argument, i.e.
+# became the component) and a second run gave `defineComponent({ name: "X" }, { name: "X" })` - found by this stream, fixed (see known_findings.txt).
 C09_DC_SECOND = ["", ", {}", ", { name: 'Given' }", ", { props: ['a'] }", ", { inheritAttrs: false }", ", extra", ", { ...extra }"]
 C09_DC_DECL = ["const X = CALL;", "let X = CALL;", "var X = CALL, Y = CALL;", "export const X = CALL;", "export default CALL;", "let X; X = CALL;", "const { a } = CALL;",
                "const X = wrap(CALL);", "function mk() { const Inner = CALL; return Inner; }", "const X: Component = CALL;", "const X = CALL, Z = <Comp>{f()}</Comp>;"]
